@@ -153,6 +153,20 @@ def draw_files(rng):
         pos = rng.randint(0, len(t))
         w["files"][name] = t[:pos] + rng.choice(mutate.NONASCII) + t[pos:]
         w["tag"] += "+nonascii"
+    if rng.random() < 0.04:
+        # an inclusion graph below a subdirectory, named relatively in several spellings; half of them are cyclic
+        root = w["roots"][0]
+        t = w["files"].get(root)
+        if isinstance(t, bytes):
+            t = t.decode("utf8", "replace")
+        if isinstance(t, str) and not any(n.startswith("zlib/") for n in w["files"]):
+            cyclic = rng.random() < 0.5
+            back = rng.choice(['"a.asm"', '"./a.asm"', '"../zlib/a.asm"', '"./../zlib/./a.asm"', '"b.asm"', '"./b.asm"'])
+            d = os.path.dirname(root)
+            w["files"][(d + "/" if d else "") + "zlib/a.asm"] = '#include "b.asm"\n'
+            w["files"][(d + "/" if d else "") + "zlib/b.asm"] = ("#include " + back + "\n") if cyclic else "#d8 0x5a\n"
+            w["files"][root] = t + ("" if t.endswith("\n") else "\n") + '#include "zlib/a.asm"\n'
+            w["tag"] += "+incgraph" + ("-cyclic" if cyclic else "")
     return w
 
 
